@@ -69,13 +69,14 @@ func (mapiter) Describe() core.EngineInfo {
 		Real:       []string{"goatlang stringMap/numericMap (Set/Get/Delete/Len/Range, key-list compaction), NewMap, codes SET/GET/GETOK/DELETE/LEN/RANGE/ITER and fused FASTGET/FASTSET through the compiler and VM"},
 		Stubs:      []string{"Go's randomised map iteration inside the key-list compaction -> seeded permutation (hook verifOrderStrings/verifOrderFloats)"},
 		Assumes:    []string{"no order is required of a range", "NaN keys excluded (as the property says)", "+0 and -0 are one key (as in Go)"},
-		ProbesWant: []string{"compactions", "cursor_across_compaction", "reinsert", "delete_ahead_of_cursor", "delete_behind_cursor", "delete_current", "insert_during_loop", "nested_cursors", "driver_host", "driver_script", "maps_keys", "one_line_script", "literal_with_repeated_key", "nil_map_start", "nested_map", "nested_miss", "exhausted", "abandoned"},
+		ProbesWant: []string{"compactions", "cursor_across_compaction", "reinsert", "delete_ahead_of_cursor", "delete_behind_cursor", "delete_current", "insert_during_loop", "nested_cursors", "driver_host", "driver_script", "maps_keys", "one_line_script", "literal_with_repeated_key", "nil_map_start", "nested_map", "nested_miss", "clone_written", "exhausted", "abandoned"},
 	}
 }
 
 // --- generation --------------------------------------------------------------
 
 type mGen struct {
+	cloned bool
 	nest   int
 	r      *core.PRNG
 	u      int
@@ -110,7 +111,19 @@ func (g *mGen) item(depth int, inLoop bool) MItem {
 	case k < 73:
 		it.Kind = "keys" // golang.org/x/exp/maps.Keys: a library function built on Range
 	case k < 74:
-		it.Kind = "clone" // maps.Clone, then the clone is compared and dropped
+		it.Kind = "clone" // maps.Clone: the clone is compared and kept; later items write to it (cset, cdel) and list it (ckeys)
+		if g.cloned && g.r.Chance(2, 3) {
+			switch g.r.Intn(4) {
+			case 0, 1:
+				g.vid++
+				it.Kind, it.Key, it.Vid = "cset", g.r.Intn(g.u), g.vid
+			case 2:
+				it.Kind, it.Key = "cdel", key
+			default:
+				it.Kind = "ckeys"
+			}
+		}
+		g.cloned = true
 	case k < 82 && inLoop:
 		it.Kind = "curdel"
 	case k < 88 && inLoop:
@@ -193,8 +206,14 @@ func (e mapiter) RunUnit(seed uint64, tier string, unit int, exec func(plan any)
 func (p *MPlan) keyValue(k int) goatlang.Value {
 	switch p.KeyType {
 	case "string":
+		if k == 2 {
+			return goatlang.String("") // the empty string is a key like any other
+		}
 		return goatlang.String(fmt.Sprintf("k%d", k))
 	case "int32":
+		if k == 3 {
+			return goatlang.Int32(0)
+		}
 		return goatlang.Int32(int32(k*37 - 500))
 	case "uint8":
 		return goatlang.Uint8(uint8(k * 6))
@@ -221,8 +240,14 @@ func (p *MPlan) canon(k int) int {
 func (p *MPlan) keyLit(k int) string {
 	switch p.KeyType {
 	case "string":
+		if k == 2 {
+			return `""`
+		}
 		return fmt.Sprintf("%q", fmt.Sprintf("k%d", k))
 	case "int32":
+		if k == 3 {
+			return "0"
+		}
 		return fmt.Sprintf("(%d)", k*37-500)
 	case "uint8":
 		return fmt.Sprint(k * 6)
@@ -393,6 +418,8 @@ type mRun struct {
 	res            *core.Result
 	h              *core.Host
 	outer          goatlang.Value
+	clone          goatlang.Value
+	cdata          map[int]int // the kept clone: key -> vid (nil until the first clone)
 	data           map[int]int // key -> vid
 	gen            map[int]int // key -> liveness generation
 	cursors        map[int]*mCursor
@@ -491,6 +518,10 @@ func (run *mRun) onLen(id, n int) {
 
 // onKeys: maps.Keys (or the keys of maps.Clone) must be exactly the live keys, each once.
 func (run *mRun) onKeys(id int, what string, ks goatlang.Value) {
+	data := run.data
+	if what == "the clone" {
+		data = run.cdata
+	}
 	seen := map[int]int{}
 	next := ks.Range()
 	for {
@@ -506,18 +537,24 @@ func (run *mRun) onKeys(id int, what string, ks goatlang.Value) {
 		seen[k]++
 	}
 	for k, n := range seen {
-		if _, live := run.data[k]; !live {
+		if _, live := data[k]; !live {
 			run.fail("C10/live", "deleted-key", "op %d: %s returned key %d, which is deleted", id, what, k)
 		} else if n > 1 {
 			run.fail("C10/once", "twice", "op %d: %s returned key %d %d times", id, what, k, n)
 		}
 	}
-	for k := range run.data {
+	for k := range data {
 		if seen[k] == 0 {
 			run.fail("C10/all", "missed", "op %d: %s does not contain the live key %d", id, what, k)
 		}
 	}
 	run.h.C.Inc("maps_keys")
+	if what == "maps.Clone" {
+		run.cdata = map[int]int{}
+		for k, v := range run.data {
+			run.cdata[k] = v
+		}
+	}
 	run.note("k")
 }
 
@@ -639,11 +676,31 @@ func (run *mRun) hostBlock(m goatlang.Value, items []MItem, cu *mCursor, iter in
 				if r2, err := run.h.Call("golang.org/x/exp/maps.Keys", 1, r[0]); err == nil && len(r2) == 1 {
 					run.onKeys(it.ID, "maps.Clone", r2[0])
 				}
+				run.clone = r[0]
 				if r[0].Len() != len(run.data) {
 					run.fail("C10/get", "len", "op %d: the clone has %d entries, the map %d live keys", it.ID, r[0].Len(), len(run.data))
 				}
 			} else {
 				run.fail("C10/get", "clone-failed", "maps.Clone failed: %v", err)
+			}
+		case "cset":
+			if run.cdata != nil {
+				run.clone.Set(run.p.keyValue(it.Key), run.p.elemValue(it.Vid))
+				run.cdata[run.p.canon(it.Key)] = it.Vid
+				run.h.C.Inc("clone_written")
+				run.note("c")
+			}
+		case "cdel":
+			if run.cdata != nil {
+				run.clone.Delete(run.p.keyValue(it.Key))
+				delete(run.cdata, run.p.canon(it.Key))
+				run.note("c")
+			}
+		case "ckeys":
+			if run.cdata != nil {
+				if r, err := run.h.Call("golang.org/x/exp/maps.Keys", 1, run.clone); err == nil && len(r) == 1 {
+					run.onKeys(it.ID, "the clone", r[0])
+				}
 			}
 		case "curset":
 			if cu != nil && cu.hasCur {
@@ -757,7 +814,13 @@ func (p *MPlan) renderItems(b *strings.Builder, items []MItem, ind string, cur i
 		case "keys":
 			ln("host.Keys(%d, 0, maps.Keys(m))", it.ID)
 		case "clone":
-			ln("host.Keys(%d, 1, maps.Keys(maps.Clone(m)))", it.ID)
+			ln("c = maps.Clone(m); host.Keys(%d, 1, maps.Keys(c))", it.ID)
+		case "cset":
+			lnRaw("if c != nil { c[%s] = %s; host.Op(%d) }", p.keyLit(it.Key), p.elemLit(it.Vid), it.ID)
+		case "cdel":
+			lnRaw("if c != nil { delete(c, %s); host.Op(%d) }", p.keyLit(it.Key), it.ID)
+		case "ckeys":
+			lnRaw("if c != nil { host.Keys(%d, 2, maps.Keys(c)) }", it.ID)
 		case "curset":
 			if cur != 0 {
 				ln("m[k%d] = %s; host.Op(%d)", cur, p.elemLit(it.Vid), it.ID)
@@ -800,6 +863,7 @@ func (p *MPlan) render() string {
 	if p.Nest > 0 {
 		mvar = "o"
 	}
+	fmt.Fprintf(&b, "var c map[%s]%s\n", ks, es)
 	elide := p.Seed%2 == 0
 	if p.NilStart > 0 {
 		fmt.Fprintf(&b, "var %s %s\n", mvar, p.mtype(inner))
@@ -880,6 +944,17 @@ func (run *mRun) natives(vm *goatlang.VM) {
 			run.onSet(it.Key, it.Vid)
 		case "del":
 			run.onDel(it.Key)
+		case "cset":
+			if run.cdata != nil {
+				run.cdata[run.p.canon(it.Key)] = it.Vid
+				run.h.C.Inc("clone_written")
+				run.note("c")
+			}
+		case "cdel":
+			if run.cdata != nil {
+				delete(run.cdata, run.p.canon(it.Key))
+				run.note("c")
+			}
 		case "curset":
 			if cu != nil && cu.hasCur {
 				run.onSet(cu.cur, it.Vid)
@@ -903,7 +978,7 @@ func (run *mRun) natives(vm *goatlang.VM) {
 	vm.Set("host.Miss", goatlang.NewFunc(2, 0, func(v *goatlang.VM, a []goatlang.Value) { run.onMiss(a[0].Int(), a[1], false, false) }))
 	vm.Set("host.MissOk", goatlang.NewFunc(3, 0, func(v *goatlang.VM, a []goatlang.Value) { run.onMiss(a[0].Int(), a[1], a[2].Bool(), true) }))
 	vm.Set("host.Keys", goatlang.NewFunc(3, 0, func(v *goatlang.VM, a []goatlang.Value) {
-		run.onKeys(a[0].Int(), map[int]string{0: "maps.Keys", 1: "maps.Clone"}[a[1].Int()], a[2])
+		run.onKeys(a[0].Int(), map[int]string{0: "maps.Keys", 1: "maps.Clone", 2: "the clone"}[a[1].Int()], a[2])
 	}))
 	vm.Set("host.Len", goatlang.NewFunc(2, 0, func(v *goatlang.VM, a []goatlang.Value) { run.onLen(a[0].Int(), a[1].Int()) }))
 	vm.Set("host.Start", goatlang.NewFunc(1, 0, func(v *goatlang.VM, a []goatlang.Value) { run.onStart(a[0].Int()) }))
